@@ -238,12 +238,30 @@ def main():
         # --- exit statuses in child processes
         codes = [0, 1, 2, 127, 128, 255] if tier == "quick" else list(range(256))
 
-        def run_exit(code):
-            sf = os.path.join(wd, "ex%d.txt" % code)
-            open(sf, "w").write("exit %s %d\ntell p 1\n" % ("p" if code % 2 else "u", code))
-            rc, so, se = run([exe, os.path.join(wd, "csb"), sf, "--"], timeout=60, env={"ASAN_OPTIONS": "detect_leaks=0"})
+        # whatever the process did before - files created, written and closed, a descriptor still open, a standard stream closed, calls
+        # that failed - the status is the one the guest gave
+        hx = lambda b: bytes(b).hex() if b else "-"
+        opn = lambda name: wasi.script_line({"call": "open", "abi": "p", "dirfd": 3, "path": name, "oflags": 1, "rd": True, "wr": True}, "")
+        PRELUDES = [[],
+                    [opn("xf"), "write p 4 %s" % hx(b"data"), "close p 4"],
+                    [opn("xg"), "write u 4 %s" % hx(b"left open")],
+                    ["close p 0"],
+                    ["close u 2", opn("xh"), "close p 4", "close p 4"],
+                    ["close p 9", "mkdir p 3 %s" % hx(b"xd"), "rmdir p 3 %s" % hx(b"nope")],
+                    [opn("xi"), opn("xj"), "close p 4", "write p 5 %s" % hx(b"z"), "close u 0", "sync p 5"]]
+        exit_jobs = [(code, (code + k_) % len(PRELUDES)) for code in codes for k_ in ((0, 1, 3, 4) if tier == "quick" or code < 4 else (0, code))]
+        exit_jobs = sorted(set(exit_jobs))
+
+        def run_exit(job):
+            code, pre = job
+            sf = os.path.join(wd, "ex%d-%d.txt" % (code, pre))
+            sbx = os.path.join(wd, "csb-ex%d-%d" % (code, pre))
+            os.makedirs(sbx, exist_ok=True)
+            open(sf, "w").write("\n".join(PRELUDES[pre] + ["exit %s %d" % ("p" if code % 2 else "u", code), "tell p 1"]) + "\n")
+            rc, so, se = run([exe, sbx, sf, "--"], timeout=60, env={"ASAN_OPTIONS": "detect_leaks=0"})
+            shutil.rmtree(sbx, ignore_errors=True)
             return code, rc, so
-        for code, rc, so in pmap(run_exit, codes):
+        for code, rc, so in pmap(run_exit, exit_jobs):
             recs.append({"kind": "exit", "code": code, "status": rc if rc >= 0 else 999, "returned": "returned" in so or '"tell"' in so})
             owner.append(("exit", code, rc))
         # --- thread spawn: translated module + real threads
